@@ -107,6 +107,24 @@ def sweep_c03(rng, tier):
         for (family, text, kind, arg) in forms:
             cases.append((text, ts0, {})); exp.append(c03_expected(ts0, kind, arg)); fam.append(family)
     recs = parse_many(cases)
+    # an omitted reference time means the current time: freeze `datetime.now` of the module (no source hook) and ask without ts
+    import sys as _sys
+    from realparse import _init, eval_case
+    _init()
+    Cm = _sys.modules["ctparse.ctparse"]
+    real_dt = Cm.datetime
+    for now in [(2020, 2, 29, 23, 59, 59), (2019, 12, 31, 0, 0, 1), (2018, 3, 7, 12, 43, 0)]:
+        class _Frozen(real_dt):
+            @classmethod
+            def now(cls, tz=None):
+                return real_dt(*now)
+        Cm.datetime = _Frozen
+        try:
+            for (family, text, kind, arg) in [f for f in forms if f[1] in ("today", "tomorrow", "now", "eom", "gestern", "next friday", "übermorgen")]:
+                c = (text, None, {}); r = eval_case(c)
+                cases.append((text, now, {"ts": None, "frozen_now": list(now)})); exp.append(c03_expected(now, kind, arg)); fam.append("ts omitted"); recs.append(r)
+        finally:
+            Cm.datetime = real_dt
     return finish("C03", cases, exp, recs, "pattern-language forms of the relative-day rules x reference times (month/year ends, leap days, 3 times of day); "
                   "non-trivial = distinct (form, reference time) that resolved", families=fam)
 
